@@ -94,7 +94,11 @@ impl Outcome {
             match r {
                 None => {}
                 Some(v) => {
-                    if let Some(e) = v.get("machinery_error") {
+                    if v.get("timeout").and_then(|t| t.as_bool()) == Some(true) {
+                        // the cell was still running when the wall-clock cap of the tier was reached: a cap, reported as
+                        // such (exhaustive = false), not a machinery failure and not a verdict
+                        self.counters.capped.push(format!("wall-clock cap: {}", v["machinery_error"].as_str().unwrap_or("cell stopped").chars().take(160).collect::<String>()));
+                    } else if let Some(e) = v.get("machinery_error") {
                         self.counters.machinery_errors.push(e.as_str().unwrap_or("?").to_string());
                     } else {
                         self.cells_done += 1;
